@@ -320,6 +320,13 @@ def rule_det2(prog, rep, tier, allowed_env=(("pure_utils", "line_length"),)):
             if isinstance(e, ast.Subscript) and isinstance(e.value, (ast.Name, ast.Attribute)) and prog.ext_name(e.value, e) == "os.environ":
                 fn = enclosing_fn(e)
                 n += 1
+                st = e
+                while not isinstance(st, ast.stmt):
+                    st = st._parent
+                tgt = {t.id for t in getattr(st, "targets", []) if isinstance(t, ast.Name)}
+                if fn is None and any((m.name, t) in allowed_env for t in tgt):
+                    rep.ob("DET-2", "%s: %s" % (m.name, src(e, 60)), "accepted", loc(prog, e), "documented configuration read at import (decided under C18)")
+                    continue
                 rep.violation(Finding("DET-2", fn.qualname if fn else m.name, "volatile:os.environ[]", "environment read %s" % src(e), loc(prog, e)))
     rep.ob("DET-2", "all %d call sites of the package scanned for volatile sources" % len(prog.all_calls()), "holds", "", "%d candidate(s) examined" % n)
 
